@@ -324,7 +324,7 @@ def run(rep, tier, seed):
     texts_by_class["bif"] = bif_sweep(rng, bifs, tier)
     # iteration domains outside the property's bound (size product of a few thousand) are legitimate
     # long-running work, not hangs: keep mutated texts with such ranges out of the workload
-    big_range = re.compile(r"\d{4,}\s*\.\.|\.\.\s*-?\s*\d{4,}|\d\s*\*\*\s*\d{3,}")
+    big_range = re.compile(r"\d{4,}[\s)]*\.\.|\.\.[\s(-]*\d{4,}|\d\s*\*\*\s*\d{3,}")
     for cls in ("mutated", "grammar-mutated", "corpus"):
         before = len(texts_by_class[cls])
         texts_by_class[cls] = [t for t in texts_by_class[cls] if not big_range.search(t)]
@@ -396,7 +396,8 @@ def run(rep, tier, seed):
                     _scan(rep, variant, cls, entry, sname, [t], res["rs"], c)
                     continue
                 if "timeout" in res:
-                    res2, _ = runner.run_single(variant, c, rep.workdir, label="slow", case_timeout=300)
+                    # bounded progress is judged on the plain debug build (sanitizer builds are 5-20x slower)
+                    res2, _ = runner.run_single("dbg" if variant == "asan" else variant, c, rep.workdir, label="slow", case_timeout=300)
                     if "rs" in res2:
                         _scan(rep, variant, cls, entry, sname, [t], res2["rs"], c)
                         rep.bump("slow_but_finished")
